@@ -240,6 +240,8 @@ func init() {
 	// line continuations inside a body: removed under an unquoted delimiter, literal text under a quoted one
 	add(here("<<", "J", ast.Word{wLit("J")}, "J", "foo \\\nbar\n", false))
 	add(here("<<", "'J'", ast.Word{wSQ("J")}, "J", "foo \\\nbar\n", true))
+	// a body whose substitution carries a redirection of its own
+	add(here("<<", "L", ast.Word{wLit("L")}, "L", "k: $(c >f)\n", false))
 	// unterminated here-documents: the lines that follow only look like the delimiter
 	for _, u := range []sym{here("<<-", "K", ast.Word{wLit("K")}, "K", "x\n K\n", false), here("<<", "K", ast.Word{wLit("K")}, "K", "\tK\nK \n", false), here("<<-", "'K'", ast.Word{wSQ("K")}, "K", "\t K\nKK\n", true)} {
 		u.noDelim = true
